@@ -43,32 +43,51 @@ func rawClause[K comparable](out *[]string, p *Pool, clause, owner string, got, 
 	}
 }
 
-func checkAll(p *Pool) []string {
-	var out []string
+// Finding: one broken clause; Key = clause id + the pool entity the evaluator was applied to (a
+// breakage that persists over several calls keeps its key although its text may change)
+type Finding struct{ Key, Msg string }
+
+func checkAll(p *Pool) []Finding {
+	var out []Finding
+	add := func(owner string, msgs ...string) {
+		for _, m := range msgs {
+			out = append(out, Finding{clauseID(m) + "#" + owner, m})
+		}
+	}
 	// C06: a call that was accepted must leave every payload layout valid (otherwise it should have
 	// been refused for lack of space); evaluators of the C01/C07 stream
 	for _, e := range p.ents {
 		e := e
+		owner := fmt.Sprint(e.H)
 		switch e.K {
 		case KMsg:
 			for _, b := range vinv.Guard("c06-layout-invalid", func() []string { return vinv.CheckMessageLayout(e.Msg) }) {
-				out = append(out, "c06-layout-invalid: "+p.describe(e.H)+": "+b)
+				add(owner, "c06-layout-invalid."+subCheck(b)+": "+p.describe(e.H)+": "+b)
 			}
 		case KSig:
 			if e.Sig.Kind() == acme.SignalKindMultiplexer && e.Sig.ParentMessage() == nil {
 				mx, _ := e.Sig.ToMultiplexer()
 				for _, b := range vinv.Guard("c06-layout-invalid", func() []string { return vinv.CheckMultiplexer(mx) }) {
-					out = append(out, "c06-layout-invalid: "+p.describe(e.H)+": "+b)
+					add(owner, "c06-layout-invalid."+subCheck(b)+": "+p.describe(e.H)+": "+b)
 				}
 			}
 		}
 	}
 	for i, d := range p.defBuilders {
-		out = append(out, vinv.CheckBuilderRefs(d, fmt.Sprintf("default builder #%d held from Bus.CANIDBuilder()", i))...)
+		add(fmt.Sprintf("def%d", i), vinv.CheckBuilderRefs(d, fmt.Sprintf("default builder #%d held from Bus.CANIDBuilder()", i))...)
 	}
 	for _, e := range p.ents {
 		e := e
-		out = append(out, vinv.Guard("c04-lookup-panics", func() []string { return checkEnt(p, e) })...)
+		// a read-only evaluator that panics has evaluated nothing: it fails all three properties
+		for _, b := range vinv.Guard("evaluator-panics", func() []string { return checkEnt(p, e) }) {
+			if strings.HasPrefix(b, "evaluator-panics:") {
+				for _, pr := range []string{"c04", "c05", "c06"} {
+					add(fmt.Sprint(e.H), pr+"-"+b)
+				}
+			} else {
+				add(fmt.Sprint(e.H), b)
+			}
+		}
 	}
 	return out
 }
@@ -184,6 +203,14 @@ func checkEnt(p *Pool, e *Ent) []string {
 }
 
 // clauseID: the part before the first ':'
+// subCheck: which layout check failed (the word before the first colon of the evaluator's message)
+func subCheck(b string) string {
+	if i := strings.Index(b, ":"); i > 0 && i < 24 {
+		return strings.ReplaceAll(strings.ReplaceAll(b[:i], "/", "-"), " ", "-")
+	}
+	return "other"
+}
+
 func clauseID(s string) string {
 	if i := strings.Index(s, ":"); i > 0 {
 		return s[:i]
